@@ -45,15 +45,15 @@ RULE = ("Hypothesis-generated histories (<=40 operations) on a long-lived datase
 BUDGET = {"quick": 480, "thorough": 8000}
 ESSENTIAL = [
     "reread-after-change:emodulus", "reread-after-change:ctc",
-    "reread-after-change:area_um", "reread-after-change:time",
-    "reread-after-change:volume", "reread-after-change:ml_class",
+    "reread-after-change:time", "reread-after-change:ml_class",
     "reread-after-change:plugin", "reread-after-removal", "child-read",
-    "reread-after-change:crosstalk-of-unrecorded-channel",
     "emodulus-unavailable:no-temperature-source",
     "fmt:hdf5", "fmt:dict", "scenario:A", "scenario:B", "scenario:C",
     "scenario:B-other+T", "emodulus-finite-values", "op:temp", "op:ctemp",
     "op:plug", "op:unplug", "op:features", "direct:emodulus", "direct:ctc",
     "direct:ml_class", "direct:plugin"]
+#: further classes to watch in the evidence (too variable to be made mandatory):
+#: reread-after-change:area_um / :volume / :crosstalk-of-unrecorded-channel
 ASSUMPTIONS = [
     "version shim so that the HDF5 file written by the untagged build re-opens",
     "input feature data are fixed per case; data change only through the documented "
@@ -167,7 +167,9 @@ def st_op(draw):
         key = draw(st.sampled_from(draw(st.sampled_from(KEY_CATS))))
         then = None
         if draw(st.integers(0, 9)) < (9 if key in CT or key == "vm" else 6):
-            then = draw(st.sampled_from(KEY_TO_FEATS[key]))
+            then = draw(st.sampled_from(
+                ["volume", "area_um", "volume", "emodulus", "area_um"] if key == "px"
+                else KEY_TO_FEATS[key]))
         if kind == "set":
             return ["set", key, _vidx(draw, key), then]
         return ["del", key, then]
